@@ -172,8 +172,16 @@ func (dm *DMap) asyncPutOnCluster(e *env, nt storage.Entry) error {
 }
 
 func (dm *DMap) syncPutOnCluster(e *env, nt storage.Entry) error {
-	// Quorum based replication.
-	var successful int
+	// Quorum based replication. The partition owner writes its own copy first: an entry
+	// rejected by the owner must neither reach the backups nor be acknowledged.
+	err := dm.putEntryOnFragment(e, nt)
+	if err != nil {
+		if dm.s.log.V(3).Ok() {
+			dm.s.log.V(3).Printf("[ERROR] Failed to call put command on %s for DMap: %s: %v", dm.s.rt.This(), e.dmap, err)
+		}
+		return err
+	}
+	successful := 1
 
 	encodedEntry := nt.Encode()
 
@@ -182,24 +190,17 @@ func (dm *DMap) syncPutOnCluster(e *env, nt storage.Entry) error {
 		rc := dm.s.client.Get(owner.String())
 		cmd := protocol.NewPutEntry(dm.name, e.key, encodedEntry).Command(dm.s.ctx)
 		err := rc.Process(dm.s.ctx, cmd)
-		if err != nil {
-			return protocol.ConvertError(err)
+		if err == nil {
+			err = cmd.Err()
 		}
-		err = protocol.ConvertError(cmd.Err())
 		if err != nil {
+			// An unreachable or failing backup is a missing copy. It fails the
+			// operation only if the write quorum cannot be reached without it.
 			if dm.s.log.V(3).Ok() {
-				dm.s.log.V(3).Printf("[ERROR] Failed to call put command on %s for DMap: %s: %v", owner, e.dmap, err)
+				dm.s.log.V(3).Printf("[ERROR] Failed to call put command on %s for DMap: %s: %v", owner, e.dmap, protocol.ConvertError(err))
 			}
 			continue
 		}
-		successful++
-	}
-	err := dm.putEntryOnFragment(e, nt)
-	if err != nil {
-		if dm.s.log.V(3).Ok() {
-			dm.s.log.V(3).Printf("[ERROR] Failed to call put command on %s for DMap: %s: %v", dm.s.rt.This(), e.dmap, err)
-		}
-	} else {
 		successful++
 	}
 	if successful >= dm.s.config.WriteQuorum {
